@@ -51,7 +51,8 @@ Proof.
 Qed.
 
 (* ------------------------------------------------------------------ the kernel: schedule and log as cells *)
-Inductive event := EvWrite (fd : Z) (p : bytes) (r : Z) | EvTrunc (fd sz : Z).
+Inductive event := EvWrite (fd : Z) (p : bytes) (r : Z) | EvTrunc (fd sz : Z)
+                 | EvOpen (r : Z) | EvClose (fd r : Z).      (* open / close of the target: coq/TrSave.v *)
 
 Definition enc_out (o : IoDefs.outcome) : val :=
   match o with IoDefs.OOk => VInt (-2) | IoDefs.OErr => VInt (-1) | IoDefs.OShort k => VInt (Z.of_nat k) end.
@@ -60,6 +61,8 @@ Definition enc_ev (e : event) : list val :=
   match e with
   | EvWrite fd p r => VInt 1 :: VInt fd :: VInt (Z.of_nat (length p)) :: VInt r :: map VInt (zb p)
   | EvTrunc fd sz => [VInt 2; VInt fd; VInt sz]
+  | EvOpen r => [VInt 3; VInt r]
+  | EvClose fd r => [VInt 4; VInt fd; VInt r]
   end.
 Definition enc_log (lg : list event) : block := flat_map enc_ev lg.
 
@@ -168,7 +171,7 @@ Fixpoint wf_run (fd : Z) (p : bytes) (s : sched) {struct s} : list event * bool 
     end
   end.
 (* the bytes a call got into the file *)
-Definition accepted (e : event) : bytes := match e with EvWrite _ p r => firstn (Z.to_nat r) p | EvTrunc _ _ => [] end.
+Definition accepted (e : event) : bytes := match e with EvWrite _ p r => firstn (Z.to_nat r) p | _ => [] end.
 Definition reached (ev : list event) : bytes := flat_map accepted ev.
 
 Lemma wf_run_model fd p s :
